@@ -223,6 +223,46 @@ impl CheckDef for Bytes {
 }
 
 // ------------------------------------------------------------------------------------------
+// (i') raw byte strings (the form libFuzzer mutates directly)
+
+#[derive(Clone, Debug, Serialize, Deserialize)]
+pub struct RawCase {
+    pub bytes: Vec<u8>,
+}
+
+pub struct Raw;
+impl CheckDef for Raw {
+    type Case = RawCase;
+    const NAME: &'static str = "raw";
+    fn strategy(_tier: Tier) -> BoxedStrategy<RawCase> {
+        prop_oneof![
+            2 => prop::collection::vec(any::<u8>(), 0..64),
+            // a plausible first byte, then anything
+            3 => ((0u8..5).prop_map(|t| (t << 4) | 1), prop::collection::vec(any::<u8>(), 0..120)).prop_map(|(f, mut v)| { v.insert(0, f); v }),
+        ]
+        .prop_map(|bytes| RawCase { bytes })
+        .boxed()
+    }
+    fn run(case: &RawCase, trace: bool) -> Outcome {
+        let b = &case.bytes;
+        if trace {
+            println!("bytes ({}): {:02x?}", b.len(), b);
+            println!("reference: {:?}", refparse::parse_message(b));
+            println!("crate header: {:?}", UtpHeader::deserialize(b));
+        }
+        let (v, labels, nontrivial) = differential(b);
+        if let Some((sig, detail)) = v {
+            return Outcome::violation(format!("bytes/{sig}"), detail);
+        }
+        let mut o = Outcome::pass();
+        o.labels = labels;
+        o.nontrivial = nontrivial;
+        o.fingerprint = fnv64(b);
+        o
+    }
+}
+
+// ------------------------------------------------------------------------------------------
 // exhaustive shape grid
 
 fn grid(ctx: &mut Ctx) {
@@ -251,7 +291,12 @@ fn grid(ctx: &mut Ctx) {
                         b.extend(std::iter::repeat_n(0x5a, paylen));
                         for cut in 0..=b.len() {
                             evals += 1;
-                            let (v, ls, nt) = differential(&b[..cut]);
+                            // "parsing never panics": a panic inside the crate's parser is a violation, not a crash of the check
+                            let (r, panics) = catch(|| differential(&b[..cut]));
+                            let (v, ls, nt) = match r {
+                                Some(x) => x,
+                                None => (Some(("panic", format!("the parser panicked: {}; bytes {:02x?}", panics.join(" ; "), &b[..cut]))), vec![], true),
+                            };
                             if nt { nontriv += 1; }
                             for l in ls { *labels.entry(l).or_insert(0u64) += 1; }
                             if let Some((sig, d)) = v { if fail.is_none() { fail = Some((b[..cut].to_vec(), sig, d)); } }
@@ -268,12 +313,12 @@ fn grid(ctx: &mut Ctx) {
         evals += e; nt += n;
         for (k, v) in l { *labels.entry(k).or_insert(0u64) += v; }
         if let Some((bytes, sig, detail)) = f {
-            let case = BytesCase { first: bytes.first().copied().unwrap_or(0), ext_first: bytes.get(1).copied().unwrap_or(0), fixed: bytes.get(2..20.min(bytes.len())).unwrap_or(&[]).to_vec(), chain: vec![], payload: bytes.get(20..).unwrap_or(&[]).to_vec(), truncate: if bytes.len() < 20 { Some(((bytes.len() as u32 * 65536 + 65535) / 21).min(65535) as u16) } else { None } };
+            let case = RawCase { bytes };
             // only report through the replayable case type if it reproduces there
-            if Bytes::run(&case, false).is_violation() {
-                ctx.report_violation::<Bytes>(&case, &format!("bytes/{sig}"), &detail);
+            if run_guarded::<Raw>(&case, false).is_violation() {
+                ctx.report_violation::<Raw>(&case, &format!("bytes/{sig}"), &detail);
             } else {
-                ctx.engine_error(format!("grid failure not reproducible through BytesCase: {sig}: {detail}"));
+                ctx.engine_error(format!("grid failure not reproducible through RawCase: {sig}: {detail}"));
             }
         }
     }
@@ -447,9 +492,11 @@ pub fn run(ctx: &mut Ctx) {
     ctx.assume("SACK extensions whose length is not 8 are parsed leniently (length recorded, bits truncated to 64) by design; they are never produced by the serializer");
     ctx.replay_corpus::<Bytes>();
     ctx.replay_corpus::<Roundtrip>();
+    ctx.replay_corpus::<Raw>();
     grid(ctx);
     ctx.run_generated::<Bytes>(ctx.tier.pick(60_000, 3_000_000));
     ctx.run_generated::<Roundtrip>(ctx.tier.pick(30_000, 1_500_000));
+    ctx.run_generated::<Raw>(ctx.tier.pick(30_000, 1_500_000));
     ctx.check_floors("bytes", &[
         Floor { label: "chain_overrun", min_count: 100 },
         Floor { label: "unknown_ext_skipped", min_count: 100 },
@@ -461,7 +508,7 @@ pub fn run(ctx: &mut Ctx) {
 }
 
 pub fn replay(v: &Value) -> Option<i32> {
-    replay_file::<Bytes>("C11", v).or_else(|| replay_file::<Roundtrip>("C11", v)).or_else(|| crate::props::c11_emit::replay(v))
+    replay_file::<Bytes>("C11", v).or_else(|| replay_file::<Roundtrip>("C11", v)).or_else(|| replay_file::<Raw>("C11", v)).or_else(|| crate::props::c11_emit::replay(v))
 }
 
 #[allow(unused)]
